@@ -142,8 +142,15 @@ def e2e(chk: Check, cases, rng, n):
                 "datasets": [{"label": "d1", "group": "default", "axis": coords, "data": data, "scale": 1, "weight": [],
                               "mcs": [{"scale": 1, "labels": ["a", "b", "c"], "idx": False, "cols": cols}]}],
                 "relations": [], "constraints": [], "penalties": [], "weights": []}
+        rel_first = False
         if kind in ("zero", "only"):
             case["constraints"] = [{"type": kind, "target": "a", "ivs": tiv, "single": len(tiv) == 1 and rng.random() < 0.5}]
+            # a relation on the SAME clp at the first axis point only (where the constraint does not apply): the labels of the first index
+            # then differ from those of the others, and the constraint must still be applied wherever it holds
+            zero_first = (axis[0] in may) if kind == "zero" else (axis[0] not in must)
+            if len(axis) >= 2 and not zero_first and rng.random() < 0.5:
+                case["relations"] = [{"source": "b", "target": "a", "param": 2, "ivs": [[axis[0] / 2, axis[0] / 2]], "single": rng.random() < 0.5}]
+                rel_first = True
         elif kind == "relation":
             case["relations"] = [{"source": "b", "target": "a", "param": 2, "ivs": tiv, "single": len(tiv) == 1 and rng.random() < 0.5}]
             # a second relation for the same target on a single point outside the first interval: each index uses ITS relation
@@ -179,10 +186,12 @@ def e2e(chk: Check, cases, rng, n):
             zero_at = must if kind == "zero" else set(axis) - must
             for p in axis:
                 v = float(rd.clp.sel(spectral=p / 2, clp_label="a"))
+                if rel_first and p == axis[0]:
+                    continue        # related there (a = 2 b), judged by the solved-reduction certificate below
                 if (p in zero_at) != (v == 0.0):
                     chk.violation(f"Intervals[e2e {kind}]: {kinds}", f"{desc}: clp[a] at {p / 2} is {v!r}; the constraint {'applies' if p in zero_at else 'does not apply'} there", rep)
                     break
-            exp_nclp = sum(2 if p in zero_at else 3 for p in axis)
+            exp_nclp = sum(2 if (p in zero_at or (rel_first and p == axis[0])) else 3 for p in axis)
             if res.number_of_clps != exp_nclp:
                 chk.violation(f"Intervals[e2e {kind} number_of_clps]: {kinds}", f"{desc}: number_of_clps {res.number_of_clps}, specification {exp_nclp}", rep)
         elif kind == "relation":
@@ -244,6 +253,8 @@ def e2e(chk: Check, cases, rng, n):
                     a_, b_, c_ = A[:, 0], A[:, 1], A[:, 2]
                     if kind == "relation":
                         red = [b_ + 2 * a_, c_] if p in must else ([b_, c_ + 3 * a_] if p == p2_ else ([a_, b_, c_] if p not in may else None))
+                    elif rel_first and p == axis[0]:
+                        red = [b_ + 2 * a_, c_]
                     else:
                         red = [b_, c_] if p in zero_at else [a_, b_, c_]
                     if red is None:
